@@ -8,6 +8,7 @@ plain bin-by-bin reference that never calls the library.
 from __future__ import annotations
 
 import math
+import itertools
 import numpy as np
 
 from mc import common, gen
@@ -625,6 +626,10 @@ def eval_sbh(f, d, E, configs=None, exprs=EXPRS, outcomes=None):
         return [(-1, "scale_by_hs", None, "scale_by_hs", "raises-" + type(e).__name__, "statistics", "hs/tp/dpm raised %s: %s" % (type(e).__name__, e))]
     if configs is None:
         configs = window_configs(hsL, tpL, dpmL)
+    # spectra whose densities are whole numbers are also passed as an integer-typed array (counts, unpacked integers)
+    variants = [("", da)]
+    if np.array_equal(E, np.rint(E)) and E.max() >= 1:
+        variants.append((",int64-input", da.astype("int64")))
     hs_known = np.ones(N, dtype=bool)
     pk_known = R.robust
     with np.errstate(all="ignore"):
@@ -647,11 +652,11 @@ def eval_sbh(f, d, E, configs=None, exprs=EXPRS, outcomes=None):
                            ("inside-exactly-on-boundary", ((m == 1) & on_boundary).sum())):
                 key = "scale_by_hs[%s]: %s" % (name, lab)
                 outcomes[key] = outcomes.get(key, 0) + int(n) * len(exprs)
-        for expr in exprs:
+        for expr, (dsuffix, da_v) in itertools.product(exprs, variants):
             param = (expr, name, kw)
-            pred = "windows=%s" % name
+            pred = "windows=%s%s" % (name, dsuffix)
             try:
-                res = da.spec.scale_by_hs(expr, **kw)
+                res = da_v.spec.scale_by_hs(expr, **kw)
                 new = np.asarray(res.transpose("site", "freq", "dir").values)
                 if new.shape != E.shape or list(res["dir"].values) != list(d) or list(res["freq"].values) != list(f):
                     raise AssertionError("result shape/coordinates differ from the input: %s" % (res.dims,))
@@ -714,6 +719,9 @@ def spectra_for(it):
         parts.append(E)
         sizes[kind] = E.shape[0]
     E = np.concatenate(parts)
+    if it.get("whole_units"):  # densities as whole numbers of the smallest positive value (these batches also run as int64 arrays)
+        pos = E[E > 0]
+        E = np.rint(E / (pos.min() if pos.size else 1.0))
     lo, hi = it.get("slice", (0, None))
     return E[lo:hi], sizes
 
@@ -727,9 +735,9 @@ def work_items(tier, seed):
     thorough = tier == "thorough"
     items = []
 
-    def add(kind, fname, nd, alpha):
+    def add(kind, fname, nd, alpha, **more):
         f, d = fams[fname], dsets[nd]
-        it = dict(kind=kind, f=f, d=d, alpha=alpha, grid="%s/d%d" % (fname, nd))
+        it = dict(kind=kind, f=f, d=d, alpha=alpha, grid="%s/d%d" % (fname, nd), **more)
         n = spectra_for(it)[0].shape[0]
         for s in range(0, n, CHUNK):
             items.append(dict(it, slice=(s, min(n, s + CHUNK)), n=min(n, s + CHUNK) - s))
@@ -742,6 +750,8 @@ def work_items(tier, seed):
         for fam in ("log_lo_%d", "log_hi_%d") + (("lin_at_%d",) if thorough else ()):
             alpha = a4 if (thorough and (cells <= 6 or (cells == 8 and fam.startswith("log_hi")))) else a3
             add("product", fam % nf, nd, alpha)
+    add("product", "log_hi_3", 2, a3, whole_units=True)
+    add("structured+bumps1", "irr_4", 6, a3, whole_units=True)
     for nf, nd in ((4, 6), (5, 8)):
         for fam in ("irr_%d", "irr_hi_%d") + (("log_hi_%d", "lin_at_%d") if thorough else ()):
             add("structured+bumps1+bumps2" + ("+bumps3" if thorough and nf == 4 else ""), fam % nf, nd, a3)
@@ -858,7 +868,7 @@ def run(rep, tier, seed, parts=None):
                 "frequency grids ending below, at and above 0.333 Hz. Each spectrum is evaluated as is, times each k in "
                 "{1e-6,1e-3,0.5,2,1e3,1e6}, and with directions relabelled by each a in {dd,-dd,7.3,-33,180,360,725.5,1e-3} "
                 "(dir=(dir+a)%360, stored order kept), all ~30 statistics each time; scale_by_hs with 3 expressions x 10 window "
-                "configurations taken from the batch's own hs/tp/dpm values (1/3 and 2/3 quantile elements, so some spectra are "
+                "configurations (batches whose densities are whole numbers also as int64 arrays) taken from the batch's own hs/tp/dpm values (1/3 and 2/3 quantile elements, so some spectra are "
                 "exactly on a bound). Every case is non-trivial (non-degenerate spectrum); count = distinct spectra x transformations.")
     rep.extra["alphabet"] = list(gen.alphabet(seed, 3))
     rep.extra["k_values"] = KS
